@@ -42,6 +42,7 @@ pub enum Event {
     Unspecified(&'static str),
 }
 
+#[derive(Clone)]
 pub struct Io<'a> {
     pub input: &'a [u8],
     pub pos: usize,
